@@ -57,7 +57,12 @@ static void on_alarm(int sig) {
 void __sanitizer_set_death_callback(void (*cb)(void));
 #endif
 
-static void viol(const char *clause, int nk, int nth, int ihmax, int shift, const float *z) {
+static void viol(const char *clause0, int nk, int nth, int ihmax, int shift, const float *z) {
+  char clause[128];
+  float lo = z[0], hi = z[0];
+  int q;
+  for (q = 1; q < nk * nth; q++) { if (z[q] < lo) lo = z[q]; if (z[q] > hi) hi = z[q]; }
+  snprintf(clause, sizeof clause, "%s%s", clause0, ((double)hi - (double)lo < 1e-9 && hi != lo) ? ":value-range<1e-9" : "");
   n_viol++;
   if (printed < 40) {
     print_case("VIOL", clause, nk, nth, ihmax, shift, z);
@@ -140,7 +145,7 @@ static int check_case(int nk, int nth, int ihmax, const float *z, int shifts) {
     }
     /* every bin labelled >= 1, labels are 1..nmin */
     for (i = 0; i < n; i++) {
-      if (lab[i] < 1) { viol(zmax - zmin < 1e-9 ? "unlabelled-bin:value-range<1e-9" : "unlabelled-bin", nk, nth, ihmax, 0, z); return 0; }
+      if (lab[i] < 1) { viol("unlabelled-bin", nk, nth, ihmax, 0, z); return 0; }
       if (lab[i] > maxlab) maxlab = lab[i];
     }
     if (maxlab != nmin) { viol("basin-count!=regional-maxima", nk, nth, ihmax, 0, z); return 0; }
